@@ -158,6 +158,25 @@ CLAIMS = {
         "Every other property re-runs its rules on K3/K4 in its thorough tier. NOT decided: equality of results (differential execution property)."),
   note='Trusted: clang 14 front end; Intel semantics of SSE compare/movemask/pshufb; simd wrapper contracts.',
   design='5/C15'),
+ 'C12': dict(
+  category='proof',
+  technique='must-dominance dataflow over dynamicnode.h for both allocator kinds (E2); evaluation of the growth expressions over a capacity range; key-provenance rule for map entries (E8)',
+  text=("Decides: (a) the append stores of AddMember/PushBack are dominated by Capacity()>Size() or a (re)allocation, and the growth expression is strictly increasing for every capacity >= 1 (evaluated for 1..300 and sampled large values) with a positive first capacity; "
+        "(b) map maintenance pairing: AddMember with a live map emplaces the new member under its own stored key with the old size as index; EraseMember destroys the map before destroying/compacting members; "
+        "RemoveMember erases the removed entry and re-indexes the moved tail when a map exists; (c) a fresh children block has a null map. "
+        "NOT decided: equality with the vector model, values of repaired indices, iterator results."),
+  note='Trusted: clang 14 front end; std::multimap semantics.',
+  design='5/C12'),
+ 'C13': dict(
+  category='other',
+  technique='clang -verify compile-fail witnesses (E10); ownership pairing and provenance must-analyses (E8/E2); call-chain release rule for owning raw-pointer fields',
+  text=("Decides: (a) 15 witnesses: copy construction/assignment of DNode, GenericDocument, WriteBuffer, Stack, SAXHandler, SchemaHandler, Parser do not compile; the deep copy shares character data only for constant strings when copying was not requested; "
+        "(b) rawAssign nulls its source on every path and every Xmemcpy/memmove of node ranges is paired with abandoning the source range; (c) every store that rewrites a node header/payload acts on a node that is under construction, "
+        "a slot of the handler's own stack, or was destroy()ed first (set*Impl, CopyFrom, clearImpl, handler End* functions); (d) destroy() has arms exactly for object, array and kStringFree and frees what each owns; "
+        "(e) owning raw-pointer fields (str_, schema_str_, st_, buf_) are overwritten only after a release on the call chain, by a realloc of themselves, or by a move that nulls the source. "
+        "One unrepaired known finding (schema_str_ leak on repeated ParseSchema) is listed in known_findings.json, hence level 'other'. NOT decided: exactly-once over arbitrary histories."),
+  note='Trusted: clang 14 front end; clang -verify. Freeing-allocator instantiations are the ones analysed (the pool never frees).',
+  design='5/C13'),
 }
 NA_REASON = {
  'C19': 'Agreement with a recursive merge model over (document, text) pairs; no structural clause that is a necessary condition without mirroring the handler code (DESIGN.md section 7).',
